@@ -4,6 +4,7 @@ CONSTANTS
   SlackNew = 0
   TolSlack = 10
   RateBand = 5
+  DivergeBand = 300
 INIT TInit
 NEXT TNext
 INVARIANT Verdict
